@@ -30,3 +30,8 @@ def run(ck: Checker):
     for name in server.SERVERS:
         s = server.discover(ck.repo, name)
         check_timeout_passthrough(ck, 'C06-9', [m for m in s.cls.methods() if m.name in ('call', '_enqueue', 'stream', '_wait_for_result')])
+    # a request the ensemble never emits never comes out of the server: its ledger slot is not returned
+    from . import c02
+
+    with ck.as_rule('C06-10', 'slots are returned also through an ensemble stage: every request whose member answers are all in is emitted exactly once (the ensemble catalog obligations C02-5: one increment per answer, completion by count, emit or completion test after every recorded answer, one catalog pop per emit)', minimum=6):
+        c02.check_ensemble(ck, 'C02-5')
